@@ -187,7 +187,7 @@ let store_sx (st : (RZ.range, z) state) : str =
 let eval (cs : Sx.t) : str =
   let c = parse_case cs in
   let (o, st, _) = model_of cs c in
-  sp "(res %s) %s %s" (outcome_sx o) (store_sx st) !last_heap
+  sp "(res %s) %s (creason 1) %s" (outcome_sx o) (store_sx st) !last_heap
 
 (* ---------------------------------------------------------------- oracles *)
 let has (s : RZ.range) (v : int) = List.exists (fun sg -> D_ranges.seg_has sg v) s
@@ -533,6 +533,8 @@ let oracles (cs : Sx.t) (rust_full : str) : (str * str) list =
   let fault = is_fault_case c in
   let all = List.filter_map (fun f -> f ()) in
   all [
+    (fun () -> if List.exists (function Sx.L [Sx.A "creason"; Sx.A "0"] -> true | _ -> false) groups
+      then Some ("C03", "a Custom (unavailable) leaf carries a reason the provider did not give for every version in its set") else None);
     (fun () -> if fault then (match check_fault c rust with Some w -> Some ("C13", w) | None -> None) else None);
     (fun () -> if fault then None else
         match robs with
